@@ -211,6 +211,8 @@ func (pc *PacketConn) ReadFrom(p []byte) (n int, addr net.Addr, err error) {
 	} else {
 		select {
 		case m = <-pc.recvChan:
+		case <-pc.context.Done():
+			return 0, nil, fmt.Errorf("connection context closed")
 		case <-time.After(time.Until(pc.GetReadDeadline())):
 			return 0, nil, ErrTimeout
 		}
